@@ -551,6 +551,18 @@ def fam_liar(cfg, tier, rng):
                                     continue
                                 out.append(pre + ["splice %s 0 i%d x%d %s drop %s %d - %d" % (a, s, e, pat, rk, rn, cl)]
                                            + usable_after(cfg, [0, 1]))
+                    # an iterator whose len() answer changes between two questions (first answer / later answers):
+                    # honest first, then more or fewer; wrong first, then honest
+                    for cl in ("%d/%d" % (rn, rn + 2), "%d/%d" % (rn, max(0, rn - 1)), "%d/%d" % (rn + 1, rn), "%d/%d" % (max(0, rn - 1), rn + 1)):
+                        a1, a2 = cl.split("/")
+                        if a1 == a2:
+                            continue
+                        for a, rk in (("e", "w"), ("e", "box"), ("t", "w")):
+                            for pat in ("-", "Fdown"):
+                                if pat != "-" and e == s:
+                                    continue
+                                out.append(pre + ["splice %s 0 i%d x%d %s drop %s %d - %s" % (a, s, e, pat, rk, rn, cl)]
+                                           + usable_after(cfg, [0, 1]))
     return out
 
 def fam_forget(cfg, tier, rng):
@@ -741,6 +753,37 @@ def fam_iter_nth(cfg, tier, rng):
                 out.append(pre + ["iter_nth %s 0 %s" % (k, ",".join(sq))])
     return out
 
+def fam_range_nth(cfg, tier, rng):
+    """C02/C03/C14: nth / nth_back (and so skip / step_by / rev().skip) on the OWNING range iterators: the items
+    passed over are destroyed like dropped ones, the i-th is yielded, overshoot exhausts; every range,
+    erased and typed drain and splice, iterator then dropped or leaked."""
+    L = 3 if tier == "quick" else 4
+    out = []
+    other_len = max_len(cfg, 2)
+    for n in range(0, max_len(cfg, L) + 1):
+        pre = prefix(cfg, [n, other_len])
+        post = ["iter ref 0 " + "F" * (n + 1), "dropvec 0", "dropvec 1"]
+        for s in range(0, n + 1):
+            for e in range(s, n + 1):
+                m = e - s
+                ks = sorted(set([0, 1, max(0, m - 1), m, m + 1]))
+                calls = ["%s%d~%s" % (c, k, sk) for c in "FB" for k in ks for sk in ("down", "drop")]
+                seqs = [[a] for a in calls]
+                seqs += [[a, b] for a in calls[::3] for b in ("Fdown", "Bdown", "F1~down", "B1~down", "B0~drop")]
+                seqs += [["Fdown", a] for a in calls[::2]] + [["Bdown", a] for a in calls[1::2]]
+                for sq in seqs:
+                    p = ",".join(sq)
+                    for a in "et":
+                        if a == "t" and "drop" in p:
+                            continue
+                        out.append(pre + ["drain %s 0 i%d x%d %s drop" % (a, s, e, p)] + post)
+                        if len(sq) == 1:
+                            out.append(pre + ["splice %s 0 i%d x%d %s drop w 2 - 2" % (a, s, e, p)] + post)
+                    if len(sq) == 1:
+                        out.append(pre + ["drain e 0 i%d x%d %s forget" % (s, e, p)] + post[:1])
+                        out.append(pre + ["splice e 0 i%d x%d %s drop box 1 - 1" % (s, e, p)] + post)
+    return out
+
 def fam_placement(cfg, tier, rng):
     """C12: storage pointer alignment for every admissible placement of the vector object."""
     if cfg["be"].split(":")[0] == "reloc":
@@ -753,6 +796,7 @@ FAMILIES = {
     "parts": fam_parts,
     "iter_clone": fam_iter_clone,
     "iter_nth": fam_iter_nth,
+    "range_nth": fam_range_nth,
     "cursor_max": fam_cursor_max,
     "placement": fam_placement,
     "fuse": fam_fuse,
